@@ -263,7 +263,19 @@ fn build(h: &Value) -> Built {
                     }
                     Box::new(hk)
                 }
-                _ => Box::new(PassthroughSingletonHook::<u32>::new(q.clone(), tx, LOC, fmt_u32)),
+                _ => {
+                    let mut hk = PassthroughSingletonHook::<u32>::new(q.clone(), tx, LOC, fmt_u32);
+                    if let Some(last) = h["last"].as_u64() {
+                        // prime `last_released` through the public behaviour: release one value
+                        q.borrow_mut().push_back(last as u32);
+                        let mut d = Scripted::new(vec![]);
+                        let mut b = Borrowed(&mut d);
+                        hk.autonomous_decision(&mut b, false);
+                        hk.release_decision(None);
+                        drain(&mut rx);
+                    }
+                    Box::new(hk)
+                }
             };
             q.borrow_mut().extend(u32s(&h["q"]));
             Built { hook, obs: Obs::Q(q, rx) }
